@@ -261,7 +261,7 @@ def split_cases(cases_path, n, wd):
     def weight(l):
         if l.startswith("sweep "):
             try:
-                return 1 + int(l.split(" ")[3]) // 2000
+                return 1 + int(l.split(" ")[3]) // 10
             except Exception:
                 return 1
         return 1 + len(l) // 4000
